@@ -187,3 +187,7 @@ def convert_version(
         model_proto.graph.Clear()
         del model_proto.functions[:]
         model_proto.graph.CopyFrom(ir.to_proto(model.graph))
+        # The declared opset versions have to follow the converted nodes
+        del model_proto.opset_import[:]
+        for domain, version in model.opset_imports.items():
+            model_proto.opset_import.add(domain=domain, version=version)
